@@ -8,7 +8,49 @@ From GoSecs Require Import Hsms.SendCore Hsms.SendCoreInv Hsms.SendCoreInvSteps.
 Import ListNotations.
 Open Scope Z_scope.
 
-Theorem channel_only_replies : forall p acts c0 s os id c r,
+Section Strict.
+Variable fx : bool.
+Variable p : cfg.
+
+(* the general form: whenever collisions are excluded — by hypothesis on the run (original code) or
+   by the data-only registry (current code) *)
+Lemma channel_only_replies_gen : forall acts c0 s os id c r,
+  (fx = false \/ DW p = true) ->
+  all_benign fx p (init c0) acts = true ->
+  run fx p (init c0) acts = Some (s, os) ->
+  get id (calls s) = Some c -> c_kind c = KSync -> c_chan c = Some r ->
+  match r with
+  | CRej reason => exists n f, In (n, f) (sent s) /\ f_st f = 7 /\ f_sys f = f_sys (c_msg c) /\ f_b3 f = reason
+  | CMsg n f => In (n, f) (sent s) /\ f_pt f = 0 /\ f_st f = 0 /\ is_secondary f = true /\ f_sys f = f_sys (c_msg c)
+  end.
+Proof.
+  intros acts c0 s os id c r NC B H G K CH.
+  pose proof (run_inv fx p acts (init c0) s os (Inv_init fx p c0) B H) as I.
+  pose proof (i_calls _ _ _ I _ _ G) as OK.
+  pose proof (ck_chan _ _ _ _ OK _ CH) as CR.
+  destruct r as [n f|reason]; cbn in CR.
+  - destruct CR as (A1 & A2 & A3 & A4 & _).
+    pose proof (ck_nil _ _ _ _ OK NC K n f CH) as ST. repeat split; auto.
+  - destruct CR as (n & f & A1 & A2 & _ & A4 & A5). exists n, f. auto.
+Qed.
+
+End Strict.
+
+(* the CURRENT step function (data-only registry): unconditionally, for all runs *)
+Theorem channel_only_replies : forall fx p acts c0 s os id c r,
+  DW p = true ->
+  run fx p (init c0) acts = Some (s, os) ->
+  get id (calls s) = Some c -> c_kind c = KSync -> c_chan c = Some r ->
+  match r with
+  | CRej reason => exists n f, In (n, f) (sent s) /\ f_st f = 7 /\ f_sys f = f_sys (c_msg c) /\ f_b3 f = reason
+  | CMsg n f => In (n, f) (sent s) /\ f_pt f = 0 /\ f_st f = 0 /\ is_secondary f = true /\ f_sys f = f_sys (c_msg c)
+  end.
+Proof.
+  intros fx p acts c0 s os id c r D H. eapply channel_only_replies_gen; eauto. apply all_benign_dw. exact D.
+Qed.
+
+(* the original step function under the no-collision hypothesis *)
+Theorem channel_only_replies_original : forall p acts c0 s os id c r,
   all_benign false p (init c0) acts = true ->
   run false p (init c0) acts = Some (s, os) ->
   get id (calls s) = Some c -> c_kind c = KSync -> c_chan c = Some r ->
@@ -16,13 +58,4 @@ Theorem channel_only_replies : forall p acts c0 s os id c r,
   | CRej reason => exists n f, In (n, f) (sent s) /\ f_st f = 7 /\ f_sys f = f_sys (c_msg c) /\ f_b3 f = reason
   | CMsg n f => In (n, f) (sent s) /\ f_pt f = 0 /\ f_st f = 0 /\ is_secondary f = true /\ f_sys f = f_sys (c_msg c)
   end.
-Proof.
-  intros p acts c0 s os id c r B H G K CH.
-  pose proof (run_inv false p acts (init c0) s os (Inv_init false p c0) B H) as I.
-  pose proof (i_calls _ _ _ I _ _ G) as OK.
-  pose proof (ck_chan _ _ _ _ OK _ CH) as CR.
-  destruct r as [n f|reason]; cbn in CR.
-  - destruct CR as (A1 & A2 & A3 & A4 & _).
-    pose proof (ck_nil _ _ _ _ OK eq_refl K n f CH) as ST. repeat split; auto.
-  - destruct CR as (n & f & A1 & A2 & _ & A4 & A5). exists n, f. auto.
-Qed.
+Proof. intros p acts c0 s os id c r B H. eapply channel_only_replies_gen; eauto. Qed.
